@@ -3,7 +3,7 @@
 // ASSUME: storage of LazyObject/LazyArray/optional is zero-filled by the harness before use so that touching a never-constructed object is detected deterministically (self != this)
 // ASSUME: reference model for galois::optional: boost::optional / std::optional (engaged flag + value); get()/*/-> only on engaged optionals
 // ASSUME: LazyArray::at() is not exercised: it does not compile (returns a pointer where a reference is declared) -- reported, not encodable
-// OB: ob_optional_ops tier=quick unwind=4 timeout=60 params=10,2,2 bounds="galois::optional<Counted> a (engaged iff p1) and b (engaged iff p2), ONE op of 10 kinds {a=b, a.assign(b), a=value, a.assign(value), copy-construct from a, construct from value, a=a, accessors get/*/->/bool (+const), a=optional<Counted>() (disengage), optional<int> from optional<long> (converting)}; engaged flags, values, live-instance count; everything destroyed at scope end" desc="optional equals the engaged-flag model; constructs/destroys its value exactly once"
+// OB: ob_optional_ops quick_limit=20 tier=quick unwind=4 timeout=60 params=10,2,2 bounds="galois::optional<Counted> a (engaged iff p1) and b (engaged iff p2), ONE op of 10 kinds {a=b, a.assign(b), a=value, a.assign(value), copy-construct from a, construct from value, a=a, accessors get/*/->/bool (+const), a=optional<Counted>() (disengage), optional<int> from optional<long> (converting)}; engaged flags, values, live-instance count; everything destroyed at scope end" desc="optional equals the engaged-flag model; constructs/destroys its value exactly once"
 // OB: ob_lazy_array tier=quick unwind=6 timeout=60 params=6 bounds="LazyArray<Counted,3> / LazyObject<Counted>: symbolic subset of slots constructed through emplace/construct(const&)/construct(&&), ONE op of 6 kinds {emplace, construct copy, construct move, destroy, element access through []/front/back/data/begin/end/rbegin/const views, LazyObject construct/get/destroy}; live-instance map" desc="LazyArray/LazyObject construct and destroy exactly the addressed slot; access paths agree"
 #include "vf.h"
 #include <cstring>
